@@ -346,6 +346,12 @@ func c11Chunks(p *Prog, r *Report, rule string) {
 		return ok && (sel.Sel.Name == "CloseAndRecv" || sel.Sel.Name == "RecvMsg") && p.staticCallee(pkg, c) == nil
 	}}
 	scope := p.methodsOf(swPkg, "writer")
+	// helpers of the writer may be package-level functions (a generic send(stream, msg))
+	for _, k := range sortedFuncKeys(p) {
+		if h := p.Funcs[k]; h.Decl != nil && h.Decl.Body != nil && h.Decl.Recv == nil && shortPath(h.Pkg.PkgPath) == swPkg && !h.Obj.Exported() {
+			scope = append(scope, k)
+		}
+	}
 	inScope := map[string]bool{}
 	for _, k := range scope {
 		inScope[k] = true
